@@ -164,6 +164,7 @@ type FactEngine struct {
 	busy     map[*ssa.Function]bool
 	callers  map[*ssa.Function][]ssa.CallInstruction // static call sites in scope
 	inScope  func(*ssa.Function) bool
+	anyPkg   bool // canary self-test: functions outside the repository module are summarised too
 }
 
 func NewFactEngine(w *World, fns []*ssa.Function) *FactEngine {
@@ -230,7 +231,7 @@ func isValidatorSig(fn *ssa.Function) bool {
 
 // ensures computes the facts on parameter-rooted paths that hold at every success return of fn.
 func (fe *FactEngine) ensures(fn *ssa.Function) []relFact {
-	if fn == nil || len(fn.Blocks) == 0 || !isRepoFunc(fn) || !isValidatorSig(fn) {
+	if fn == nil || len(fn.Blocks) == 0 || (!isRepoFunc(fn) && !fe.anyPkg) || !isValidatorSig(fn) {
 		return nil
 	}
 	if r, ok := fe.ensCache[fn]; ok {
@@ -501,7 +502,7 @@ func alwaysReturnsNonNil(fn *ssa.Function, i int) bool {
 // resultEnsures: facts about result #i (relFact.param = result index) that hold at every success
 // return of an error-returning repo function, e.g. "the returned key has length 32".
 func (fe *FactEngine) resultEnsures(fn *ssa.Function) []relFact {
-	if fn == nil || len(fn.Blocks) == 0 || !isRepoFunc(fn) || errIndex(fn) < 1 {
+	if fn == nil || len(fn.Blocks) == 0 || (!isRepoFunc(fn) && !fe.anyPkg) || errIndex(fn) < 1 {
 		return nil
 	}
 	if r, ok := fe.resCache[fn]; ok {
